@@ -36,12 +36,12 @@ def body(c):
         n = rng.randint(5, 60)
         s, ended = [], False
         for _ in range(n):
-            x = rng.choice(["feed", "tick", "poll", "poll", "poll", "end"])
+            x = rng.choice(["feed", "feederr", "tick", "poll", "poll", "poll", "poll", "end"])
             if x == "end":
                 if ended or rng.random() < 0.8:
                     continue
                 ended = True
-            if x == "feed" and ended:
+            if x in ("feed", "feederr") and ended:
                 continue
             if x == "tick" and s and "tick" in s[-3:]:
                 continue  # model: one armed timer fires at most once before being consumed
@@ -52,6 +52,10 @@ def body(c):
         for pre in ([], ["poll"], ["tick", "poll", "poll"]):
             scheds.append(pre + (["feedbig"] if big else ["feed"]) * n + ["poll"] * (3 * n + 2) + ["end", "poll", "poll"])
             scheds.append(pre + (["feedbig"] if big else ["feed"]) * n + ["tick"] + ["poll"] * (3 * n + 6) + ["end", "poll"])
+    # errors-only responses (data null) in the middle of a stream: still one part each, the stream goes on
+    for pre in ([], ["feed", "poll", "poll", "poll"]):
+        scheds.append(pre + ["feederr"] + ["poll"] * 4 + ["feed"] + ["poll"] * 4 + ["feederr", "feed"] + ["poll"] * 8 + ["end", "poll", "poll"])
+        scheds.append(pre + ["feederr", "feederr", "tick"] + ["poll"] * 10 + ["feed"] + ["poll"] * 4 + ["end", "poll"])
     vlib.write_ndjson(c.path("schedules.ndjson"), scheds)
     (binary,) = vlib.build_harness(["c26"])
     p = vlib.run_harness(binary, [c.path("schedules.ndjson"), c.path("trace.ndjson"), c.seed], timeout=1800)
